@@ -171,8 +171,8 @@ MIRI_AT = re.compile(r"-->\s+(/repo/\S+|src/\S+?):(\d+):\d+")
 MIRI_PLAN = {
     "C04": (0.0005, 16, 1500),
     "C05": (0.00005, 16, 1500),
-    "C16": (0.0002, 16, 2400),
-    "C17": (0.0001, 8, 3000),
+    "C16": (0.0001, 16, 3600),
+    "C17": (0.0001, 8, 3600),
 }
 
 
